@@ -26,6 +26,7 @@ static Plan base_plan(const std::string &prop, uint64_t seed, Rng &r) {
         static const uint64_t W[] = {1ull << 32, 1ull << 31, 1ull << 16, (1ull << 32) * 1000, 3ull << 32, (1ull << 31) * 1000};
         p.t0 = W[r.below(6)] - (uint64_t)r.range(0, r.chance(0.5) ? 300 : 3000);
     }
+    if (r.chance(0.03)) p.t0 = (uint64_t)r.pickl({0, 1, 2, 99, 100, 500, 900, 999}); // the daemon starts within the first second of the monotonic clock (embedded boot)
     p.mac_seed = r.next();
     p.memfill = (uint8_t)r.pickl({0x00, 0xFF, 0xA5, 0xFE, 0xFE});
     p.memfill_seed = r.next();
@@ -54,6 +55,19 @@ static int rnd_bridge(Rng &r, int sid) {
 
 // the link's MTU changes in place (same interface context, the daemon re-sizes its receive buffer)
 static Op op_mtu_change(Rng &r, int node, uint32_t dt) { return mk(OP_ATTR, dt, {node, 0, 0x40000, (int64_t)pick_mtu(r)}); }
+// an attribute seed whose icon (or friendly name) is a non-zero exact multiple of the link's large-property payload (MTU - 34), or one
+// byte off: the sizes at which "bytes remain beyond this chunk" flips
+static uint64_t aligned_attr_seed(Rng &r, uint32_t mtu, bool wifi, uint64_t fallback) {
+    size_t P = mtu - 34;
+    for (int t = 0; t < 400; t++) {
+        uint64_t s = r.next() | 1;
+        Attr a = make_attr(s, wifi);
+        if (!a.icon_avail || a.icon.empty()) continue;
+        size_t rem = a.icon.size() % P;
+        if (rem == 0 || (t > 300 && (rem == 1 || rem == P - 1))) return s;
+    }
+    return fallback;
+}
 static Op op_discover(Rng &r, int sid, int tos) {
     return mk(OP_DISCOVER, rnd_dt(r), {sid, rnd_bridge(r, sid), tos, rnd_gen(r), r.chance(0.2) ? 0 : (int64_t)rnd_seq(r), 0, 0, 0});
 }
@@ -205,7 +219,7 @@ static Plan gen_C02(uint64_t seed, Rng &r) {
     Mix m;
     double frate = 0.1;
     if (p.family == 1) { m.raw = 8; m.stray = 10; frate = 0.5; }
-    if (p.family == 2) { m.flood = 4; m.query = 8; m.fetch = 4; m.qlt = 6; }
+    if (p.family == 2) { m.flood = 4; m.query = 8; m.fetch = 8; m.qlt = 6; if (r.chance(0.6)) { p.nodes[0].mtu = (uint32_t)r.pickl({576, 1280, 1500, 9000}); if (r.chance(0.3)) p.nodes[0].attr_seed = aligned_attr_seed(r, p.nodes[0].mtu, p.nodes[0].wifi, p.nodes[0].attr_seed); } } // the icon sizes of the attribute generator cluster around multiples of these links' payload sizes
     int nops = (int)r.range(5, 50);
     int mapper = (int)r.below(3);
     bool platform_faults = r.chance(0.3); // a refused transmit or a failed allocation must not make any LATER frame malformed
@@ -458,6 +472,7 @@ static Plan gen_C08(uint64_t seed, Rng &r) {
     Plan p = base_plan("C08", seed, r);
     NodeCfg n = rnd_node(r, {GLUE_BARE, GLUE_LEGACY, GLUE_DARWIN});
     if (r.chance(0.6)) n.mtu = (uint32_t)r.pickl({576, 1280, 1500, 9000}); // the icon sizes of the attribute generator cluster around multiples of these payload sizes
+    if (r.chance(0.15)) n.attr_seed = aligned_attr_seed(r, n.mtu, n.wifi, n.attr_seed);
     p.nodes.push_back(n);
     int mapper = (int)r.below(3);
     int br = rnd_bridge(r, mapper);
@@ -667,7 +682,7 @@ static Plan gen_C11(uint64_t seed, Rng &r) {
 
 static void api_prelude(Plan &p, Rng &r) {
     p.api_world = true;
-    p.t0 = (uint64_t)r.range(1, 5000) * 1000;
+    p.t0 = r.chance(0.04) ? (uint64_t)r.pickl({0, 0, 1, 100, 500, 999}) : (uint64_t)r.range(1, 5000) * 1000; // API walks too may start in the clock's first second
     NodeCfg n;
     n.glue = GLUE_DARWIN; n.mtu = 1500; n.attr_seed = r.next() | 1;
     p.nodes.push_back(n);
@@ -736,6 +751,11 @@ static Plan gen_C12(uint64_t seed, Rng &r) {
 }
 
 static int64_t rnd_r(Rng &r) {
+    if (r.chance(0.2)) { // where an intermediate product c*r (c a factor of the formula's constants) wraps a 32-bit word to a small value: r just above k * 2^32 / c
+        static const int64_t C[] = {3, 5, 9, 15, 45, 45, 45, 90, 2025};
+        int64_t c = C[r.below(9)], k = r.range(1, c - 1);
+        return ((k << 32) + c - 1) / c + r.range(0, 15);
+    }
     switch (r.below(4)) {
     case 0: return r.pickl({0, 1, 2, 9, 10, 14, 15, 16, 9769, 9770, 9771, 32768, 65535, 65536, 65537, 92681, 92682, 131072, 131073, 0x7FFFFFFF, 0x80000000ll, 0xFFFFFFFFll, 0xFFFF0000ll, 196608, 262144});
     case 1: { int64_t k = r.range(1, 65535); return k * 65536 + r.range(-1, 1); }
@@ -907,6 +927,28 @@ static Plan gen_C17(uint64_t seed, Rng &r) {
     p.nodes.push_back(rnd_node(r, {GLUE_BARE, GLUE_LEGACY, GLUE_DARWIN}));
     if (r.chance(0.3)) p.nodes.push_back(rnd_node(r, {GLUE_BARE, GLUE_LEGACY}));
     if (r.chance(0.1)) p.nodes.push_back(rnd_node(r, {GLUE_BARE}));
+    if (r.chance(0.04)) { // one interface is re-created again and again (each time under a fresh context pointer, each time receiving a frame) while another one holds a session
+        p.family = 8;
+        p.nodes.resize(2);
+        for (auto &n : p.nodes) n.glue = GLUE_BARE;
+        auto on = [](Op o, int node) { o.only = node; return o; };
+        uint16_t g = rnd_gen(r);
+        auto disc = [&](int sid, int node) { Op o = mk(OP_DISCOVER, (uint32_t)r.range(1, 10), {sid, -1, 0, g, rnd_seq(r), 1, 2, -1}); o.blob = {(uint8_t)node}; return on(o, node); };
+        p.ops.push_back(disc(0, 0));
+        p.ops.push_back(on(mk(OP_PROBE, 5, {1500, 1500, wire::W_PROBE, 100, 100, 0, 0, 0}), 0));
+        p.ops.push_back(on(mk(OP_QLT, 5, {0, -1, 0, rnd_seq(r), 0x0E, 0, 0}), 0));
+        int64_t K = r.pickl({15, 16, 17, 31, 32, 33, 63, 64, 65, 66, 127, 128, 129, 200});
+        for (int64_t k = 0; k < K; k++) {
+            p.ops.push_back(on(mk(OP_ATTR, (uint32_t)r.range(1, 5), {1, 0, 0x80000, 0}), 1));
+            p.ops.push_back(disc(1 + (int)r.below(2), 1));
+        }
+        p.ops.push_back(disc(3, 0));                                                      // another mapper knocks on interface 0: must stay unanswered
+        p.ops.push_back(on(mk(OP_QUERY, 10, {0, -1, 0, rnd_seq(r), 3}), 0));                // the session's mapper asks for the observation
+        p.ops.push_back(on(mk(OP_QLT, 10, {0, -1, 0, rnd_seq(r), 0x0E, 0, 0}), 0));
+        p.ops.push_back(on(mk(OP_RESET, 10, {0, -1, 0, 0, 0, 0}), 0));
+        p.tail_ms = 100;
+        return p;
+    }
     Mix m;
     m.raw = 1; m.stray = 2; m.stall = 0; m.flood = 2; m.fetch = 2;
     int nops = (int)r.range(2, 50);
